@@ -464,20 +464,24 @@ def marker_extents(ctx, res, rule, parts=("range", "unwrap", "empty")):
                 if not (E.startswith("find_next_line_break_pos(") and "el.start_token.byte_end" in E and "byte_start" not in E):
                     problems.append("head end `%s` is not a forward line-break scan seeded at the end of the opening tag" % E[:160])
                 m = re.match(r"^\((find_prev_line_break_pos\(.*\)\.some) \+ 1\)$", S1)
-                if not (m and "el.end_token.byte_start" in S1 and "byte_end" not in S1):
-                    problems.append("tail start `%s` is not (backward line-break scan seeded at the closing tag) + 1" % S1[:160])
+                m0 = re.match(r"^(find_prev_line_break_pos\(.*\)\.some)$", S1)
+                S = m.group(1) if m else (m0.group(1) if m0 else None)
+                if S is None or "el.end_token.byte_start" not in S1 or "byte_end" in S1:
+                    problems.append("tail start `%s` is not a backward line-break scan seeded at the closing tag (+ 1)" % S1[:160])
                 else:
-                    S = m.group(1)
-                    # guard: the pair is built only when head.end <= tail.start, i.e. E <= S + 1; E <= S suffices
-                    oks = False
+                    # guard: the pair is built only when head.end <= tail.start.  tail.start = S + 1 needs E <= S + 1 (E <= S
+                    # suffices); tail.start = S (the line break itself goes with the tail) needs E <= S and is only sensible for E = S
+                    rel = None
                     for k, val in o["decisions"].items():
-                        if k == "ord(%s, %s)" % (E, S) and val in ("<", "="):
-                            oks = True
-                        if k == "ord(%s, %s)" % (S, E) and val in (">", "="):
-                            oks = True
-                    if not oks:
+                        if k == "ord(%s, %s)" % (E, S):
+                            rel = val
+                        if k == "ord(%s, %s)" % (S, E):
+                            rel = {"<": ">", "=": "=", ">": "<"}[val]
+                    if rel not in ("<", "="):
                         problems.append("the head/tail pair is built on a path that does not establish head.end <= tail.start "
                                         "(decisions: %s)" % {k[:60]: v for k, v in o["decisions"].items() if k.startswith("ord(")})
+                    elif m0 and rel != "=":
+                        problems.append("the tail starts at the line break itself although inner lines remain (the last inner line would lose its line break)")
             if problems:
                 res.add(Finding(rule, fn, sig, "; ".join(problems), loc=loc))
             else:
